@@ -60,6 +60,9 @@ pub fn vguardif(Ghost(g): Ghost<bool>, c: bool)
     requires g ==> c, // [C07]
     ensures c,
 { if !c { panic!() } }
+// R3d: is this a build with debug assertions?  (no contract: both answers are verified)
+#[verifier::external_body]
+pub fn vdebug() -> bool { cfg!(debug_assertions) }
 pub fn vunreachable()
     requires false, // [C07]
 {}
